@@ -12,6 +12,7 @@ package rotemplate
 //@   binds v tpl template
 //@   calls Execute String
 //@   params v
+//@   scope buf template tpl v
 //@   maypanic
 //@   track call.Template.Execute call.Buffer.String
 //@   ensures [executes-the-parsed-template-once-on-the-item-and-returns-the-text|C18] trace(call.Template.Execute(tpl, _, v), call.Buffer.String(_)) && result0 == res(call.Buffer.String) && result1 == res(call.Template.Execute)
@@ -21,6 +22,7 @@ package rotemplate
 //@   binds v tpl template
 //@   calls Execute String
 //@   params v
+//@   scope buf template tpl v
 //@   maypanic
 //@   track call.Template.Execute call.Buffer.String
 //@   ensures [executes-the-parsed-template-once-on-the-item-and-returns-the-text|C18] trace(call.Template.Execute(tpl, _, v), call.Buffer.String(_)) && result0 == res(call.Buffer.String) && result1 == res(call.Template.Execute)
